@@ -130,11 +130,13 @@ func runSeq(c *mc.Ctx) {
 	levels := []uint{1, 2, 3, 5}
 	var phases []phase
 	if c.Quick() {
-		phases = []phase{{keysQuick, []string{"v", "w"}, envInt("VERIF_TRIE_DEPTH", 5)}}
+		phases = []phase{{keysQuick, []string{"v", "w"}, envInt("VERIF_TRIE_DEPTH", 5)},
+			{keysNested, []string{"v"}, envInt("VERIF_TRIE_DEPTH_N", 6)}}
 	} else {
 		phases = []phase{
 			{keysAll, []string{"v", longVal}, envInt("VERIF_TRIE_DEPTH_A", 5)},
 			{keysQuick, []string{"v", "w"}, envInt("VERIF_TRIE_DEPTH_B", 6)},
+			{keysNested, []string{"v", "w"}, envInt("VERIF_TRIE_DEPTH_N", 7)},
 		}
 	}
 	// Internal wall-clock budget (only stops exploration, never decides anything): the quick
